@@ -142,7 +142,7 @@ type gateInfo struct {
 	markers  map[string]*Production
 	inl      []*inlProd
 
-	cell         gateCell // the gate: a slice field of the lexer, or a named slice type its methods work on
+	cell         gateCell   // the gate: a slice field of the lexer, or a named slice type its methods work on
 	enter, leave *core.Func // the functions that do the work (wrappers resolved)
 	dead         *core.Func
 	region       []*core.Func // hand-written functions reachable from the reduce actions
